@@ -71,6 +71,7 @@ type ScenarioOutcome struct {
 	Signal       string   `json:"signal,omitempty"`
 	Output       string   `json:"output"`
 	PosLines     []int    `json:"pos_lines,omitempty"` // distinct line numbers of position-like patterns in the complete output
+	LineMismatch string   `json:"line_mismatch_nongating,omitempty"`
 	Argv         []string `json:"argv"`
 	Cmdline      []string `json:"cmdline"`
 	DstPre       string   `json:"dst_pre"`
@@ -772,7 +773,11 @@ func judge(s *Scenario, e expectation, o *ScenarioOutcome, image []byte, imageCl
 				}
 			}
 			if !same {
-				return mk("R3-parse-error-wrong-line", "the reported position is not on the line where the parser fails on the comment-free form of the same lines", fmt.Sprintf("line %d", e.ErrLine), clipS(o.Output, 200))
+				// Recorded, not gating: the statement asks for "a message giving the position", and gosk's
+				// grammar has quirks (an identifier that begins with a mnemonic, e.g. WAIT_X:, is not a label)
+				// under which a comment legitimately moves the furthest-failure point of an already
+				// unparseable source to another line.
+				o.LineMismatch = fmt.Sprintf("reported lines %v, comment-free form fails on line %d", o.PosLines, e.ErrLine)
 			}
 		}
 		if !okPos {
